@@ -108,6 +108,7 @@ structure DetPost (s : State) (tid : Nat) (t : Task) (s' : State) : Prop where
   tt : alookup tid s'.tasks = some { preT t with worker := none }
   rw : RW s s'
   wex : ∀ q w, (wfind s'.workers q w).isSome = (wfind s.workers q w).isSome
+  par : ∀ q w wk', wfind s'.workers q w = some wk' → ∃ wk, wfind s.workers q w = some wk ∧ wk.parked = wk'.parked
 
 theorem detSt_post {ex exo} {s : State} {tid : Nat} {t : Task} (hI : InvX ex exo s)
     (ht : alookup tid s.tasks = some t) : DetPost s tid t (detSt s t) := by
@@ -119,14 +120,14 @@ theorem detSt_post {ex exo} {s : State} {tid : Nat} {t : Task} (hI : InvX ex exo
   cases htw : t.worker with
   | none =>
     simp only []
-    refine ⟨⟨_, _, rfl⟩, ?_, ?_, RW.refl s, fun _ _ => rfl⟩
+    refine ⟨⟨_, _, rfl⟩, ?_, ?_, RW.refl s, fun _ _ => rfl, fun q w wk' h => ⟨wk', h, rfl⟩⟩
     · intro k hk; simp only [State.setTask]; grind
     · simp only [State.setTask]; grind
   | some qw =>
     obtain ⟨q, w⟩ := qw
     obtain ⟨wk, hwk, hwt⟩ := hI.core.p2 tid t q w ht htw
     simp only [worker?_def, hwk, setWorker_eq]
-    refine ⟨⟨_, _, rfl⟩, ?_, ?_, ?_, ?_⟩
+    refine ⟨⟨_, _, rfl⟩, ?_, ?_, ?_, ?_, ?_⟩
     · intro k hk; simp only [State.setTask]; grind
     · simp only [State.setTask]; grind
     · intro q' w' wk' hwk' hp'
@@ -138,6 +139,11 @@ theorem detSt_post {ex exo} {s : State} {tid : Nat} {t : Task} (hI : InvX ex exo
         exact ⟨{ wk' with task := none }, by grind, rfl, Or.inr rfl⟩
       · exact ⟨wk', by grind, rfl, Or.inl rfl⟩
     · intro q' w'; simp only [State.setTask]; grind
+    · intro q' w' wk'; simp only [State.setTask]
+      have := wfind_key hwk
+      by_cases hk : wk.scq = q' ∧ wk.id = w'
+      · intro h; exact ⟨wk, by grind, by grind⟩
+      · intro h; exact ⟨wk', by grind, rfl⟩
 
 theorem detSt_inv {exo} {s : State} {tid : Nat} {t : Task} (hI : InvX (fun _ => False) exo s)
     (ht : alookup tid s.tasks = some t) (hr : t.response = none) :
@@ -244,5 +250,451 @@ theorem finalize_spec {exo} {s : State} {tid : Nat} {t0 : Task} {l : Nat} {e : E
   · intro k hk; simp only [finSt0, emit]; grind
   · refine ⟨bumpGen { t0 with learner := none, response := some r }, ?_, rfl, rfl, hw⟩
     simp only [finSt0, emit]; grind
+
+theorem Core.nl_mono {ex ts ws dd nt nl nl'} (h : Core ex ts ws dd nt nl) (hle : nl ≤ nl') :
+    Core ex ts ws dd nt nl' :=
+  { h with l2 := fun k t l h1 h2 => Nat.lt_of_lt_of_le (h.l2 k t l h1 h2) hle }
+
+/-- the parts of the invariant that do not depend on the event log, after the final
+completion of the exempt task -/
+theorem finSt_parts {exo} {s : State} {tid : Nat} {t0 : Task} (e : Event)
+    (hI : InvX (fun k => k = tid) exo s)
+    (h0 : alookup tid s.tasks = some t0) (hw : t0.worker = none) (hq : t0.queued = false) (r : Resp) :
+    ∃ s', complete.finalize (emit s e) { t0 with learner := none } r = .ok s' ∧
+      Core (fun _ => False) s'.tasks s'.workers s'.dedup s'.nextTask s'.nextLearner ∧
+      OInv exo s'.tasks s'.ops s'.nextOp ∧ SInv s'.ops s'.streams s'.cleanup ∧
+      FinPost s tid t0 e r s' ∧
+      s'.tasks = aset t0.id (bumpGen { t0 with learner := none, response := some r }) s.tasks := by
+  have hid : t0.id = tid := (hI.core.tid tid t0 h0).1
+  have h0' : alookup t0.id s.tasks = some t0 := by rw [hid]; exact h0
+  rw [finalize_eq]
+  have hcore := finSt0_core hI.core h0 hw hq r
+  have hoinv : OInv exo (finSt0 (emit s e) { t0 with learner := none } r).tasks s.ops s.nextOp :=
+    hI.oinv.setTask (t := bumpGen { t0 with learner := none, response := some r }) (t0 := t0) h0' rfl
+  obtain ⟨os, cl, he, hsim, hsinv⟩ := finishOps_frame (exo := exo) (ts := (finSt0 (emit s e) { t0 with learner := none } r).tasks)
+    (no := s.nextOp) (finSt0 (emit s e) { t0 with learner := none } r) t0.ops hoinv
+  refine ⟨_, congrArg Except.ok he, hcore, hoinv.sim hsim, hsinv hI.sinv, ⟨⟨_, _, _, _, rfl⟩, ?_, ?_⟩, rfl⟩
+  · intro k hk; simp only [finSt0, emit]; grind
+  · refine ⟨bumpGen { t0 with learner := none, response := some r }, ?_, rfl, rfl, hw⟩
+    simp only [finSt0, emit]; grind
+
+/-- the background-learning part of the success branch -/
+def bgPart (h : Hints) (s : State) (t : Task) (bgIdx : Nat) : M State := do
+      let bl := s.nextLearner
+      let s := { s with nextLearner := bl + 1 }
+      let some pq := s.pq? t.scq.pq | throw "complete: no platform queue"
+      if pq.bgMax = 0 then return emit s (.learnerAbandoned bl)
+      let sizes := s.sizes t.scq.pq
+      let some bsc := sizes[min bgIdx (sizes.length - 1)]? | throw "platform queue without size classes"
+      let bq : ScqId := ⟨t.scq.pq, bsc⟩
+      if countQueuedBackground s bq ≥ pq.bgMax then return emit s (.learnerAbandoned bl)
+      let opn := s.nextOp
+      let bt : Task := { id := s.nextTask, digest := t.digest, dkey := t.dkey, doNotCache := true, scq := bq, ops := [opn], worker := none, retry := 0, response := none, gen := 0, learner := some bl, background := true, queued := false }
+      let bo : Op := { name := opn, task := bt.id, inv := [0], prio := pq.bgPrio, waiters := 0, mayExistWithoutWaiters := true }
+      let s := { s with nextTask := s.nextTask + 1, nextOp := opn + 1 }
+      let s := (s.setTask bt).setOp bo
+      schedule h s bt.id
+
+theorem completeOk_eq (h : Hints) (s : State) (t : Task) (r : Resp) (l : Nat) :
+    completeOk h s t r l =
+      (complete.finalize (emit s (.learnerSucceeded l (if h.bg.isSome then some s.nextLearner else none)))
+        { t with learner := none } r >>= fun s' =>
+        match h.bg with
+        | none => pure s'
+        | some bgIdx => bgPart h s' (bumpGen { t with learner := none, response := some r }) bgIdx) := by
+  rw [finalize_eq]
+  unfold completeOk finSt0
+  simp only [ok_bind']
+  by_cases hc : alookup t.dkey s.dedup = some t.id
+  · simp only [emit, hc, if_true]; rfl
+  · simp only [emit, hc, if_false]; rfl
+
+
+def bgTask (Y : State) (t : Task) (bq : ScqId) : Task :=
+  { id := Y.nextTask, digest := t.digest, dkey := t.dkey, doNotCache := true, scq := bq,
+    ops := [Y.nextOp], worker := none, retry := 0, response := none, gen := 0,
+    learner := some Y.nextLearner, background := true, queued := false }
+
+def bgOp (Y : State) (prio : Int) : Op :=
+  { name := Y.nextOp, task := Y.nextTask, inv := [0], prio := prio, waiters := 0,
+    mayExistWithoutWaiters := true }
+
+/-- the state in which the background task and its operation have been created -/
+def bgSt (Y : State) (t : Task) (bq : ScqId) (prio : Int) : State :=
+  { Y with nextLearner := Y.nextLearner + 1, nextTask := Y.nextTask + 1, nextOp := Y.nextOp + 1,
+           tasks := aset Y.nextTask (bgTask Y t bq) Y.tasks,
+           ops := aset Y.nextOp (bgOp Y prio) Y.ops }
+
+/-- frame of the background part -/
+structure BgPost (Y s' : State) : Prop where
+  fr : Fr Y s'
+  rw : RW Y s'
+  wex : ∀ q w, (wfind s'.workers q w).isSome = (wfind Y.workers q w).isSome
+  tk : ∀ k, k < Y.nextTask → alookup k s'.tasks = alookup k Y.tasks
+  sts : s'.streams = Y.streams
+
+theorem bgSt_inv {exo} {Y : State} {t : Task} {bq : ScqId} {prio : Int}
+    (hc : Core (fun _ => False) Y.tasks Y.workers Y.dedup Y.nextTask Y.nextLearner)
+    (ho : OInv exo Y.tasks Y.ops Y.nextOp) (hs : SInv Y.ops Y.streams Y.cleanup)
+    (hlog : ∀ ts', (∀ l', Held ts' l' → Held Y.tasks l' ∨ l' = Y.nextLearner) →
+      LogInv ts' (Y.nextLearner + 1) Y.events) :
+    InvX (fun k => k = Y.nextTask) exo (bgSt Y t bq prio) := by
+  refine ⟨?_, ?_, ?_, ?_⟩
+  · simp only [bgSt, bgTask]
+    core_facts hc
+    constructor <;> grind
+  · simp only [bgSt]
+    have := ho.ond; have := ho.oid; have := ho.o1; have := ho.o2; have := ho.o3; have := hc.tid
+    constructor
+    · grind
+    · grind [bgOp]
+    · intro k o; rw [alookup_aset]; split
+      · rename_i hk; intro e; cases e
+        exact ⟨bgTask Y t bq, by rw [alookup_aset]; simp [bgOp], by simp [bgTask, hk]⟩
+      · intro hk
+        obtain ⟨t', h1, h2⟩ := ho.o1 k o hk
+        have hne : ¬ Y.nextTask = o.task := by have := hc.tid _ _ h1; omega
+        exact ⟨t', by rw [alookup_aset, if_neg hne]; exact h1, h2⟩
+    · intro k t' o; rw [alookup_aset]; split
+      · rename_i hk; intro e; cases e; intro hm
+        simp only [bgTask, List.mem_singleton] at hm; subst hm
+        exact ⟨by omega, Or.inr ⟨bgOp Y prio, by rw [alookup_aset]; simp, hk⟩⟩
+      · intro hk hm
+        obtain ⟨a, b⟩ := ho.o2 k t' o hk hm
+        refine ⟨by omega, ?_⟩
+        rcases b with b | ⟨op, e1, e2⟩
+        · exact Or.inl b
+        · right; exact ⟨op, by rw [alookup_aset, if_neg (by omega)]; exact e1, e2⟩
+    · intro k t'; rw [alookup_aset]; split
+      · intro e; cases e; simp [bgTask]
+      · exact ho.o3 k t'
+  · simp only [bgSt]
+    have := ho.oid
+    constructor
+    · intro k op; rw [alookup_aset]; split
+      · intro e; cases e
+        rename_i hk; subst hk
+        simp only [bgOp, Nat.le_zero_eq, List.countP_eq_zero]
+        intro st hst
+        have h3 := hs.s3 st hst
+        cases ha : alookup st.op Y.ops with
+        | none => simp [ha] at h3
+        | some op => have := (ho.oid _ _ ha).2; simp; omega
+      · exact hs.s1 k op
+    · intro k op e; rw [alookup_aset]; split
+      · intro e'; cases e'; intros; rfl
+      · exact hs.s2 k op e
+    · intro st hst; have := hs.s3 st hst; rw [alookup_aset]; split <;> simp_all
+  · simp only [bgSt]
+    apply hlog
+    intro l' hl'
+    rcases hl'.aset with h | ⟨k', t', _, h1, h2⟩
+    · right; simpa [bgTask] using h.symm
+    · left; exact ⟨k', t', h1, h2⟩
+
+
+theorem bgSt_fr (Y : State) (t : Task) (bq : ScqId) (prio : Int) : Fr Y (bgSt Y t bq prio) := by
+  refine ⟨⟨rfl, Nat.le_succ _, Nat.le_succ _, Nat.le_succ _, ?_, Ext.refl _ _⟩, Ext.refl _ _⟩
+  intro k hk
+  refine ⟨Nat.lt_succ_of_lt hk.1, ?_⟩
+  intro t'
+  simp only [bgSt]
+  rw [alookup_aset, if_neg (by have := hk.1; omega)]
+  exact hk.2 t'
+
+theorem abandon_post (Y : State) :
+    BgPost Y (emit { Y with nextLearner := Y.nextLearner + 1 } (.learnerAbandoned Y.nextLearner)) := by
+  refine ⟨⟨⟨rfl, Nat.le_refl _, Nat.le_succ _, Nat.le_refl _, fun k hk => hk, Ext.refl _ _⟩, ?_⟩,
+    RW.refl Y, fun _ _ => rfl, fun _ _ => rfl, rfl⟩
+  exact Ext.cons (Ext.refl _ _) _ trivial
+
+theorem bgPart_spec {exo} {h : Hints} {Y : State} {t : Task} {bgIdx : Nat}
+    (hc : Core (fun _ => False) Y.tasks Y.workers Y.dedup Y.nextTask Y.nextLearner)
+    (ho : OInv exo Y.tasks Y.ops Y.nextOp) (hs : SInv Y.ops Y.streams Y.cleanup)
+    (hlog : ∀ ts', (∀ l', Held ts' l' → Held Y.tasks l' ∨ l' = Y.nextLearner) →
+      LogInv ts' (Y.nextLearner + 1) Y.events)
+    (hab : LogInv Y.tasks (Y.nextLearner + 1) (.learnerAbandoned Y.nextLearner :: Y.events)) :
+    wp (bgPart h Y t bgIdx) (fun s' => InvX (fun _ => False) (exo) s' ∧ BgPost Y s') := by
+  have hA : InvX (fun _ => False) exo
+      (emit { Y with nextLearner := Y.nextLearner + 1 } (.learnerAbandoned Y.nextLearner)) :=
+    ⟨hc.nl_mono (Nat.le_succ _), ho, hs, hab⟩
+  unfold bgPart
+  simp only []
+  split
+  · rename_i pq hpq
+    split
+    · exact ⟨hA, abandon_post Y⟩
+    · split
+      · rename_i bsc hbsc
+        split
+        · exact ⟨hA, abandon_post Y⟩
+        · have hZ := bgSt_inv (t := t) (bq := ⟨t.scq.pq, bsc⟩) (prio := pq.bgPrio) hc ho hs hlog
+          have ht : alookup Y.nextTask (bgSt Y t ⟨t.scq.pq, bsc⟩ pq.bgPrio).tasks = some (bgTask Y t ⟨t.scq.pq, bsc⟩) := by
+            simp only [bgSt]; rw [alookup_aset]; simp
+          have hsp := schedule_spec (h := h) hZ ht rfl rfl
+          refine wp_mono hsp ?_
+          intro s' ⟨hI', hp⟩
+          refine ⟨hI'.mono (fun k hk => hk.2 hk.1) (fun _ h => h), ?_⟩
+          obtain ⟨ws, ts, asg, he⟩ := hp.same
+          refine ⟨(bgSt_fr Y t _ _).trans (hp.fr ht rfl), ?_, hp.wex, ?_, by rw [he]; rfl⟩
+          · exact RW.trans (RW.refl Y) hp.rw
+          · intro k hk
+            rw [hp.tk k (by omega)]
+            simp only [bgSt]
+            rw [alookup_aset, if_neg (by omega)]
+      · okerr
+  · okerr
+
+/-- frame of the branches of `complete`, relative to the detached state -/
+structure ContPost (s : State) (tid : Nat) (t0 : Task) (s' : State) : Prop where
+  fr : Fr s s'
+  rw : RW s s'
+  wex : ∀ q w, (wfind s'.workers q w).isSome = (wfind s.workers q w).isSome
+  tk : ∀ k, k ≠ tid → k < s.nextTask → alookup k s'.tasks = alookup k s.tasks
+  tt : ∃ t', alookup tid s'.tasks = some t' ∧ t'.ops = t0.ops ∧
+        ∀ q w, t'.worker = some (q, w) → ∃ wk, wfind s.workers q w = some wk ∧ wk.parked = true
+  sts : s'.streams = s.streams
+
+/-- task `tid` is completed in `s` -/
+def TDone (s : State) (tid : Nat) : Prop := ∀ t', alookup tid s.tasks = some t' → t'.response.isSome = true
+
+theorem FinPost.cont {s Y : State} {tid : Nat} {t0 : Task} {e : Event} {r : Resp}
+    (h : FinPost s tid t0 e r Y) (h0 : alookup tid s.tasks = some t0) (hr : t0.response = none)
+    (hq : Quiet e) : ContPost s tid t0 Y ∧ TDone Y tid := by
+  obtain ⟨ts, dd, os, cl, he⟩ := h.same
+  obtain ⟨t', h1, h2, h3, h4⟩ := h.tt
+  have htk := h.tk
+  subst he
+  refine ⟨⟨⟨⟨rfl, Nat.le_refl _, Nat.le_refl _, Nat.le_refl _, ?_, Ext.refl _ _⟩, ?_⟩, RW.refl s,
+    fun _ _ => rfl, fun k hk _ => htk k hk, ⟨t', h1, h3, ?_⟩, rfl⟩, ?_⟩
+  · intro k hk
+    by_cases hkt : k = tid
+    · subst hkt; have := hk.2 t0 h0; simp [hr] at this
+    · refine ⟨hk.1, ?_⟩
+      have := htk k hkt
+      simp only at this ⊢
+      rw [this]; exact hk.2
+  · exact Ext.cons (Ext.refl _ _) _ hq
+  · intro q w hqw; rw [h4] at hqw; cases hqw
+  · intro t'' h1'; rw [h1] at h1'; cases h1'; simp [h2]
+
+theorem ContPost.trans_bg {s Y s' : State} {tid : Nat} {t0 : Task} (h1 : ContPost s tid t0 Y)
+    (h2 : BgPost Y s') (hnt : Y.nextTask = s.nextTask) (hlt : tid < s.nextTask) : ContPost s tid t0 s' := by
+  obtain ⟨t', a, b, c⟩ := h1.tt
+  refine ⟨h1.fr.trans h2.fr, h1.rw.trans h2.rw, fun q w => (h2.wex q w).trans (h1.wex q w), ?_, ?_,
+    h2.sts.trans h1.sts⟩
+  · intro k hk hlt'
+    rw [h2.tk k (by omega), h1.tk k hk hlt']
+  · exact ⟨t', by rw [h2.tk tid (by omega)]; exact a, b, c⟩
+
+theorem TDone.trans_bg {Y s' : State} {tid : Nat} (h1 : TDone Y tid) (h2 : BgPost Y s')
+    (hlt : tid < Y.nextTask) : TDone s' tid := by
+  intro t' ht'; rw [h2.tk tid hlt] at ht'; exact h1 t' ht'
+
+/-- holders after the final completion of `tid` (which held `l`) -/
+theorem held_fin {ex} {s : State} {tid : Nat} {t0 t1 : Task} {l : Nat}
+    (hc : Core ex s.tasks s.workers s.dedup s.nextTask s.nextLearner)
+    (h0 : alookup tid s.tasks = some t0) (hl : t0.learner = some l) (h1 : t1.learner = none) :
+    ∀ l', Held (aset tid t1 s.tasks) l' → Held s.tasks l' ∧ l' ≠ l := by
+  intro l' hl'
+  rcases hl'.aset with h | ⟨k', t', hk, h2, h3⟩
+  · rw [h1] at h; cases h
+  · refine ⟨⟨k', t', h2, h3⟩, ?_⟩
+    intro e; subst e
+    exact hk (hc.l3 k' tid t' t0 l' h2 h0 h3 hl)
+
+theorem completeOk_spec {exo} {h : Hints} {s : State} {tid : Nat} {t0 : Task} {l : Nat} {r : Resp}
+    (hI : InvX (fun k => k = tid) exo s)
+    (h0 : alookup tid s.tasks = some t0) (hr : t0.response = none) (hw : t0.worker = none)
+    (hq : t0.queued = false) (hl : t0.learner = some l) :
+    wp (completeOk h s t0 r l) (fun s' => InvX (fun _ => False) exo s' ∧ ContPost s tid t0 s' ∧ TDone s' tid) := by
+  have hid : t0.id = tid := (hI.core.tid tid t0 h0).1
+  have hlt : tid < s.nextTask := (hI.core.tid tid t0 h0).2
+  have hll : l < s.nextLearner := hI.core.l2 tid t0 l h0 hl
+  rw [completeOk_eq]
+  cases hbg : h.bg with
+  | none =>
+    simp only [Option.isSome_none, Bool.false_eq_true, if_false]
+    obtain ⟨Y, hY, hIY, hfp⟩ := finalize_spec (e := .learnerSucceeded l none) hI h0 hw hq hl
+      (by intro l'; simp) (by intro l'; simp) r
+    rw [hY]
+    simp only [ok_bind', wp_pure]
+    have := hfp.cont h0 hr trivial
+    exact ⟨hIY, this.1, this.2⟩
+  | some bgIdx =>
+    simp only [Option.isSome_some, if_true]
+    obtain ⟨Y, hY, hcY, hoY, hsY, hfp, htasks⟩ :=
+      finSt_parts (.learnerSucceeded l (some s.nextLearner)) hI h0 hw hq r
+    rw [hY]
+    simp only [ok_bind']
+    have hcont := hfp.cont h0 hr trivial
+    obtain ⟨ts, dd, os, cl, he⟩ := hfp.same
+    have hev : Y.events = .learnerSucceeded l (some s.nextLearner) :: s.events := by rw [he]
+    have hnl : Y.nextLearner = s.nextLearner := by rw [he]
+    have hnt : Y.nextTask = s.nextTask := by rw [he]
+    have htasks' : Y.tasks = aset tid (bumpGen { t0 with learner := none, response := some r }) s.tasks := by
+      rw [htasks]; exact congrArg (fun k => aset k _ s.tasks) hid
+    have hheld := held_fin (t1 := bumpGen { t0 with learner := none, response := some r }) hI.core h0 hl rfl
+    rw [← htasks'] at hheld
+    have hlog : ∀ ts', (∀ l', Held ts' l' → Held Y.tasks l' ∨ l' = Y.nextLearner) →
+        LogInv ts' (Y.nextLearner + 1) Y.events := by
+      intro ts' hts'
+      rw [hev, hnl]
+      refine hI.linv.term_issue ⟨tid, t0, h0, hl⟩ hll (by intro l'; simp)
+        (by intro l'; simp) ?_
+      intro l' hl'
+      rcases hts' l' hl' with a | a
+      · exact Or.inl (hheld l' a)
+      · exact Or.inr (a.trans hnl)
+    have hab : LogInv Y.tasks (Y.nextLearner + 1) (.learnerAbandoned Y.nextLearner :: Y.events) := by
+      refine (hlog Y.tasks (fun l' h => Or.inl h)).abandon_unheld ?_ ?_ ?_
+      · rw [hev, hnl, issueCount_cons, hI.linv.g4 _ (Nat.le_refl _)]; simp
+      · have h1 := hI.linv.g1 s.nextLearner
+        rw [hI.linv.g4 _ (Nat.le_refl _)] at h1
+        have : ¬ s.nextLearner = l := by omega
+        rw [hev, hnl, termCount_cons]; simp [this]; omega
+      · intro hh
+        obtain ⟨⟨k', t', a, b⟩, _⟩ := hheld _ hh
+        have := hI.core.l2 k' t' _ a b
+        omega
+    refine wp_mono (bgPart_spec (h := h) (t := bumpGen { t0 with learner := none, response := some r })
+      (bgIdx := bgIdx) hcY hoY hsY hlog hab) ?_
+    intro s' ⟨hI', hbp⟩
+    exact ⟨hI', hcont.1.trans_bg hbp hnt hlt, hcont.2.trans_bg hbp (by omega)⟩
+
+theorem Fr.of_fields {s s' : State} (hcfg : s'.cfg = s.cfg) (hnt : s.nextTask ≤ s'.nextTask)
+    (hnl : s.nextLearner ≤ s'.nextLearner) (hno : s.nextOp ≤ s'.nextOp) (hasg : s'.assigned = s.assigned)
+    (hev : Ext Quiet s.events s'.events)
+    (hdead : ∀ k, Dead s.tasks s.nextTask k → ∀ t, alookup k s'.tasks = some t → t.response.isSome = true) :
+    Fr s s' :=
+  ⟨⟨hcfg, hnt, hnl, hno, fun k hk => ⟨Nat.lt_of_lt_of_le hk.1 hnt, hdead k hk⟩, by rw [hasg]; exact Ext.refl _ _⟩, hev⟩
+
+theorem finBranch_spec {exo} {s : State} {tid : Nat} {t0 : Task} {l : Nat} {e : Event}
+    (hI : InvX (fun k => k = tid) exo s)
+    (h0 : alookup tid s.tasks = some t0) (hr : t0.response = none) (hw : t0.worker = none)
+    (hq : t0.queued = false) (hl : t0.learner = some l)
+    (he : e = .learnerAbandoned l ∨ ∃ b, e = .learnerFailed l b none) (r : Resp) :
+    ∃ s', complete.finalize (emit s e) { t0 with learner := none } r = .ok s' ∧
+      InvX (fun _ => False) exo s' ∧ ContPost s tid t0 s' ∧ TDone s' tid ∧
+      s'.nextTask = s.nextTask ∧ s'.nextOp = s.nextOp := by
+  have het : ∀ l', isTerm l' e = (l' == l) := by
+    rcases he with he | ⟨b, he⟩ <;> subst he <;> intro l' <;> simp
+  have hei : ∀ l', isIssue l' e = false := by
+    rcases he with he | ⟨b, he⟩ <;> subst he <;> intro l' <;> simp
+  have hqe : Quiet e := by
+    rcases he with he | ⟨b, he⟩ <;> subst he <;> trivial
+  obtain ⟨Y, hY, hIY, hfp⟩ := finalize_spec hI h0 hw hq hl het hei r
+  have := hfp.cont h0 hr hqe
+  obtain ⟨ts, dd, os, cl, hs⟩ := hfp.same
+  exact ⟨Y, hY, hIY, this.1, this.2, by rw [hs], by rw [hs]⟩
+
+/-- the state handed to `schedule` by the retry branch -/
+def retrySt (s : State) (t0 : Task) (l : Nat) (r : Resp) : State :=
+  (emit { s with nextLearner := s.nextLearner + 1 }
+      (.learnerFailed l (r.code = cDeadlineExceeded) (some s.nextLearner))).setTask
+    { t0 with learner := some s.nextLearner,
+              scq := largestScq (emit { s with nextLearner := s.nextLearner + 1 }
+                (.learnerFailed l (r.code = cDeadlineExceeded) (some s.nextLearner))) t0.scq }
+
+def retryTask (s : State) (t0 : Task) (l : Nat) (r : Resp) : Task :=
+    { t0 with learner := some s.nextLearner,
+              scq := largestScq (emit { s with nextLearner := s.nextLearner + 1 }
+                (.learnerFailed l (r.code = cDeadlineExceeded) (some s.nextLearner))) t0.scq }
+
+theorem completeRetry_eq (h : Hints) (s : State) (t0 : Task) (r : Resp) (l : Nat) :
+    completeRetry h s t0 r l = (schedule h (retrySt s t0 l r) t0.id >>= fun s3 => do
+      let some t := s3.task? t0.id | throw "complete: task vanished"
+      return s3.setTask (bumpGen t)) := by
+  unfold completeRetry retrySt
+  rfl
+
+theorem retrySt_inv {exo} {s : State} {tid : Nat} {t0 : Task} {l : Nat} (r : Resp)
+    (hI : InvX (fun k => k = tid) exo s)
+    (h0 : alookup tid s.tasks = some t0) (hl : t0.learner = some l) :
+    InvX (fun k => k = tid) exo (retrySt s t0 l r) := by
+  have hid : t0.id = tid := (hI.core.tid tid t0 h0).1
+  have h0' : alookup t0.id s.tasks = some t0 := by rw [hid]; exact h0
+  have hll : l < s.nextLearner := hI.core.l2 tid t0 l h0 hl
+  have hc := hI.core
+  refine ⟨?_, ?_, hI.sinv, ?_⟩
+  · simp only [retrySt, State.setTask, emit]
+    core_facts hc
+    constructor
+    case l3 => clear h_p1 h_p2 h_p3 h_q1 h_q2 h_d1 h_d2 h_bg h_l1 h_w1 h_w2 h_w3 hI hc; grind
+    all_goals grind
+  · exact hI.oinv.setTask (t := retryTask s t0 l r) h0' rfl
+  · simp only [retrySt, State.setTask, emit]
+    refine hI.linv.term_issue ⟨tid, t0, h0, hl⟩ hll (by intro l'; simp) (by intro l'; simp) ?_
+    intro l' hl'
+    rcases hl'.aset with h | ⟨k', t', hk, h2, h3⟩
+    · right; simpa using h.symm
+    · left
+      refine ⟨⟨k', t', h2, h3⟩, ?_⟩
+      intro e; subst e
+      exact hk ((hc.l3 k' tid t' t0 l' h2 h0 h3 hl).trans hid.symm)
+
+theorem retrySt_fr {s : State} {tid : Nat} {t0 : Task} (l : Nat) (r : Resp)
+    (h0 : alookup tid s.tasks = some t0) (hid : t0.id = tid) (hr : t0.response = none) :
+    Fr s (retrySt s t0 l r) := by
+  refine Fr.of_fields rfl (Nat.le_refl _) (Nat.le_succ _) (Nat.le_refl _) rfl
+    (Ext.cons (Ext.refl _ _) _ trivial) ?_
+  intro k hk t
+  simp only [retrySt, State.setTask, emit]
+  rw [alookup_aset]
+  split
+  · rename_i hkk
+    rw [hid] at hkk; subst hkk
+    have := hk.2 t0 h0; simp [hr] at this
+  · exact hk.2 t
+
+/-- replacing a task by one with the same response -/
+theorem Fr.setTask {s : State} {t t0 : Task} (h0 : alookup t.id s.tasks = some t0)
+    (hr : t.response = t0.response) : Fr s (s.setTask t) := by
+  refine Fr.of_fields rfl (Nat.le_refl _) (Nat.le_refl _) (Nat.le_refl _) rfl (Ext.refl _ _) ?_
+  intro k hk t'
+  simp only [State.setTask]
+  rw [alookup_aset]
+  split
+  · rename_i hkk; subst hkk
+    intro e; cases e
+    rw [hr]; exact hk.2 t0 h0
+  · exact hk.2 t'
+
+set_option maxHeartbeats 800000 in
+theorem completeRetry_spec {exo} {h : Hints} {s : State} {tid : Nat} {t0 : Task} {l : Nat} {r : Resp}
+    (hI : InvX (fun k => k = tid) exo s)
+    (h0 : alookup tid s.tasks = some t0) (hr : t0.response = none) (hw : t0.worker = none)
+    (hl : t0.learner = some l) :
+    wp (completeRetry h s t0 r l) (fun s' => InvX (fun _ => False) exo s' ∧ ContPost s tid t0 s' ∧
+      s'.nextTask = s.nextTask ∧ s'.nextOp = s.nextOp) := by
+  have hid : t0.id = tid := (hI.core.tid tid t0 h0).1
+  have hI2 := retrySt_inv r hI h0 hl
+  have ht2 : alookup tid (retrySt s t0 l r).tasks = some (retryTask s t0 l r) := by
+    simp only [retrySt, State.setTask, emit, retryTask]; rw [alookup_aset, hid]; simp
+  rw [completeRetry_eq, hid]
+  apply wp_bind
+  refine wp_mono (schedule_spec (h := h) hI2 ht2 hr hw) ?_
+  intro s3 ⟨hI3, hp⟩
+  obtain ⟨t3, ht3, he3, _, hprov⟩ := hp.tt
+  simp only [task?_def, ht3, wp_pure]
+  have hid3 : t3.id = tid := by rw [he3]; exact hid
+  have ht3' : alookup (bumpGen t3).id s3.tasks = some t3 := by simp only [bumpGen]; rw [hid3]; exact ht3
+  have hI3' : InvX (fun _ => False) exo s3 := hI3.mono (fun k hk => hk.2 hk.1) (fun _ h => h)
+  obtain ⟨ws, ts, asg, hs3⟩ := hp.same
+  refine ⟨bumpGen_inv hI3' ht3, ?_, by rw [hs3]; rfl, by rw [hs3]; rfl⟩
+  · have hfr : Fr s (s3.setTask (bumpGen t3)) :=
+      ((retrySt_fr l r h0 hid hr).trans (hp.fr ht2 hr)).trans (Fr.setTask (t := bumpGen t3) ht3' rfl)
+    refine ⟨hfr, ?_, ?_, ?_, ?_, by rw [hs3]; rfl⟩
+    · exact RW.trans (RW.trans (RW.refl s) hp.rw) (RW.refl s3)
+    · exact hp.wex
+    · intro k hk _
+      simp only [State.setTask, bumpGen]
+      rw [alookup_aset, if_neg (by rw [hid3]; exact fun e => hk e.symm), hp.tk k hk]
+      simp only [retrySt, State.setTask, emit]
+      rw [alookup_aset, if_neg (by rw [hid]; exact fun e => hk e.symm)]
+    · refine ⟨bumpGen t3, ?_, ?_, ?_⟩
+      · simp only [State.setTask, bumpGen]; rw [alookup_aset, if_pos hid3]
+      · rw [he3]; rfl
+      · intro q w hqw; exact hprov q w hqw
 
 end BbRe.Lemmas.SchedInv
